@@ -119,8 +119,10 @@ Paths(p) == CASE p \in {"s1", "s2"} -> SessionPaths
 (* declared lock order: the transitive closure of Base; every nested acquisition of the model    *)
 (* (and of the code: Trace_Locks) must be one of its pairs.  Group objects form the class "grp": *)
 (* no goroutine holds two group mutexes.                                                         *)
-Base == {<<"hls", "sm">>, <<"sm", "grp">>, <<"rin", "grp">>, <<"grp", "fps">>, <<"grp", "pool">>, <<"sm", "ipb">>}
-LockNames == {"hls", "sm", "rin", "grp", "fps", "pool", "ipb"}
+\* "pst": gb28181.PubSession.tcpMutex, a leaf around the connection field of a TCP-mode GB28181 session (taken by the
+\* accept loop without any lock, and by Dispose under the group lock)
+Base == {<<"hls", "sm">>, <<"sm", "grp">>, <<"rin", "grp">>, <<"grp", "fps">>, <<"grp", "pool">>, <<"sm", "ipb">>, <<"grp", "pst">>}
+LockNames == {"hls", "sm", "rin", "grp", "fps", "pool", "ipb", "pst"}
 RECURSIVE TC(_)
 TC(R) == LET R2 == R \cup {<<a, c>> \in LockNames \X LockNames : \E b \in LockNames : <<a, b>> \in R /\ <<b, c>> \in R}
          IN IF R2 = R THEN R ELSE TC(R2)
